@@ -539,26 +539,41 @@ func r044(c *Ctx) {
 	// normalisation in NewService precedes the options store; CopyWithOptions builds through NewService
 	ns := c.fn("NewService")
 	norm := c.methodIn(c.server, "ServiceOptions", "Normalize")
-	okNorm := false
-	for _, w := range c.writesOfField(optF) {
-		if w.fn != ns {
-			continue
-		}
-		for _, cs := range callsTo(ns, norm) {
-			if u, ok := w.val.(*ssa.UnOp); ok && u.X == cs.common().Args[0] && dominates(cs.instr, w.instr) && dominates(cs.instr, u) {
-				okNorm = true
+	// constructsNormalised: fn stores into the options of an object it allocates itself exactly the options it normalised
+	constructsNormalised := func(fn *ssa.Function) bool {
+		okNorm := false
+		for _, w := range c.writesOfField(optF) {
+			if w.fn != fn {
+				continue
 			}
+			if _, fresh := w.base.(*ssa.Alloc); !fresh {
+				return false
+			}
+			this := false
+			for _, cs := range callsTo(fn, norm) {
+				if u, ok := w.val.(*ssa.UnOp); ok && u.X == cs.common().Args[0] && dominates(cs.instr, w.instr) && dominates(cs.instr, u) {
+					this = true
+				}
+			}
+			if !this {
+				return false
+			}
+			okNorm = true
 		}
+		return okNorm
 	}
-	c.ob(rule, "NewService/normalises-options-before-use", ns.Pos(), okNorm, true, "NewService must store the options it normalised (\"\" host for none, \"/\"+trimmed prefixes)")
+	c.ob(rule, "NewService/normalises-options-before-use", ns.Pos(), constructsNormalised(ns), true, "NewService must store the options it normalised (\"\" host for none, \"/\"+trimmed prefixes)")
 	cwo := c.method("Service", "CopyWithOptions")
-	c.ob(rule, "CopyWithOptions/builds-through-NewService", cwo.Pos(), len(callsTo(cwo, ns)) == 1, true, "a redeploy's options must pass through NewService's normalisation")
+	c.ob(rule, "CopyWithOptions/builds-through-NewService", cwo.Pos(), len(callsTo(cwo, ns)) == 1 || constructsNormalised(cwo), true, "a redeploy's options must pass through NewService's normalisation (by calling it, or by the same construction: normalise, then store into a freshly allocated service)")
 	nh, np := c.fn("NormalizeHosts"), c.fn("NormalizePathPrefixes")
 	c.ob(rule, "Normalize/applies-both-normalisers", norm.Pos(), len(callsTo(norm, nh)) == 1 && len(callsTo(norm, np)) == 1, true, "")
 	// writers of Service.options: constructor, restore; TLS sync writes only TLS fields (C16)
 	for _, w := range c.writesOfField(optF) {
 		o := fname(outer(w.fn))
 		ok := o == "server.NewService" || o == "(*server.Service).UnmarshalJSON"
+		if _, fresh := w.base.(*ssa.Alloc); fresh && constructsNormalised(w.fn) {
+			ok = true // a construction with the constructor's own discipline
+		}
 		c.ob(rule, "write Service.options <- "+o, w.instr.Pos(), ok, false, "only the constructor and the restore path may assign a service's options")
 	}
 	for _, f := range []*types.Var{hostsF, prefF} {
